@@ -303,6 +303,18 @@ impl<'a> Machine<'a> {
             Cell::Unset => return undet("array used before its DIM executed"),
         };
         let v = self.coerce(v, &l.sty, path)?;
+        if slot.is_some() {
+            if self.features.contains("array-store") {
+                self.feat("array-stores>=2");
+            }
+            self.feat("array-store");
+        }
+        if !l.fields.is_empty() {
+            self.feat("field-store");
+        }
+        if matches!(l.sty, STy::Fixed(_)) {
+            self.feat("fixed-string-store");
+        }
         let cell = &mut self.frames[fi].cells[ci];
         let target: &mut Val = match cell {
             Cell::Scalar(x) => x,
@@ -568,7 +580,7 @@ impl<'a> Machine<'a> {
         for (k, a) in args.iter().enumerate() {
             let param = &pr.params[k];
             match a {
-                Expr::Load(l) if l.sty == param.sty && !param.array => {
+                Expr::Load(l) if (l.sty == param.sty || (matches!(l.sty, STy::Fixed(_)) && param.sty == STy::B(Ty::Str))) && !param.array => {
                     // by reference: resolve the caller's path now (subscripts evaluated once)
                     let res = self.resolve(l, path)?;
                     let v = self.read_resolved(&res);
